@@ -128,7 +128,30 @@ def plan(tier, seed):
     def rcfg():
         return G.cfg(expr=rnd.choice(exprs), stop=rnd.random() < 0.3, dry=rnd.random() < 0.15,
                      show_skipped=rnd.random() < 0.6, cont=rnd.random() < 0.15,
-                     capture=(rnd.random() < 0.75, rnd.random() < 0.75, rnd.random() < 0.75))
+                     capture=(rnd.random() < 0.75, rnd.random() < 0.75, rnd.random() < 0.75), retry=rnd.random() < 0.2)
+
+    def with_o2(p):
+        """second-attempt outcomes for the steps of a program (scenario_autoretry)"""
+        def fix(steps):
+            for st in steps or []:
+                if st["o"] not in ("undefined", "badarg"):
+                    st["o2"] = rnd.choice(["pass", "pass", "fail", "error", st["o"]])
+                    if st["o2"] in ("undefined", "badarg"):
+                        st["o2"] = "pass"
+
+        def walk(items):
+            for it in items:
+                if it["kind"] == "rule":
+                    fix(it.get("bg")); walk(it["items"])
+                elif it["kind"] == "scenario":
+                    fix(it["steps"])
+                else:
+                    for b in it["blocks"]:
+                        for row in b["rows"]:
+                            fix(row)
+        for f in p["features"]:
+            fix(f.get("bg")); walk(f["items"])
+        return p
 
     def rfaults(p, n):
         nh = G.count_hooks_upper(G.flatten(p))
@@ -140,21 +163,24 @@ def plan(tier, seed):
 
     if quick:
         for p in G.family_scen(2):
-            out.append((p, [G.cfg(), rcfg()], rfaults(p, 2)))
+            out.append((with_o2(p), [G.cfg(), rcfg()], rfaults(p, 2)))
         for p in G.family_tree(rnd, 260):
-            out.append((p, [rcfg(), rcfg()], rfaults(p, 2)))
+            out.append((with_o2(p), [rcfg(), rcfg()], rfaults(p, 2)))
         for p in G.family_big(rnd, 40):
-            out.append((p, [rcfg()], rfaults(p, 2)))
+            out.append((with_o2(p), [rcfg()], rfaults(p, 2)))
     else:
-        base = [G.cfg(), G.cfg(stop=True), G.cfg(dry=True), G.cfg(cont=True), G.cfg(show_skipped=False, capture=(False, True, False))]
+        base = [G.cfg(), G.cfg(stop=True), G.cfg(dry=True), G.cfg(cont=True), G.cfg(show_skipped=False, capture=(False, True, False)),
+                G.cfg(retry=True)]
         for p in G.family_scen(3):
-            nh = G.count_hooks_upper(G.flatten(p))
+            p = with_o2(p)
+            nh = 2 * G.count_hooks_upper(G.flatten(p))
             out.append((p, base, [[0, 0]] + [[k, 0] for k in range(1, nh + 1)]))
         for p in G.family_tree(rnd, 4000):
+            p = with_o2(p)
             nh = G.count_hooks_upper(G.flatten(p))
             out.append((p, [rcfg() for _ in range(3)], [[0, 0]] + [[k, 0] for k in range(1, nh + 1)] + rfaults(p, 3)[1:]))
         for p in G.family_big(rnd, 1500):
-            out.append((p, [rcfg(), rcfg()], rfaults(p, 6)))
+            out.append((with_o2(p), [rcfg(), rcfg()], rfaults(p, 6)))
     return out
 
 
@@ -162,7 +188,7 @@ def shared(chk, part="core"):
     """Run (or load) the shared stage for this tree / tier / seed.  Returns a dict:
        n_runs, tlc: [{module,cfg,distinct,generated,wall,coverage}], verdicts: {clause: [ {key, ...} ]},
        divergences, samples, design_violations"""
-    key = tree_key({"tier": chk.tier, "seed": chk.seed, "part": part, "v": 4})
+    key = tree_key({"tier": chk.tier, "seed": chk.seed, "part": part, "v": 5})
     os.makedirs(CACHE, exist_ok=True)
     path = os.path.join(CACHE, "%s-%s.json.gz" % (part, key))
     lock = open(os.path.join(CACHE, "%s-%s.lock" % (part, chk.tier)), "w")
